@@ -327,6 +327,114 @@ def part_drive(res, rng, n_tuples):
     res.exhaustive = True
 
 
+# ------------------------------------------------------------------ (b2) bundles with a history
+def part_histories(res, rng, n_tuples):
+    """Bundles that have lived: some targets were unplugged again after linking (freed slots before live ones), targets whose
+    range depends on a unit controller set to any of its units, bystander modules before and after the MultiCtl.  Inputs are
+    sampled (every 257th + both ends).  Judged: live mapped ranged targets in range and monotone; every other controller of
+    every module of the project (unplugged targets, unmapped targets, bystanders, the other controllers of mapped targets,
+    the MultiCtl's own parameters) keeps its value, except that a unit-dependent target may move inside the range of its
+    CURRENT unit."""
+    import rv.api as api
+    from rv.modules import MODULE_CLASSES
+    from rv.modules.multictl import MultiCtl
+    sp = spec.load()
+    ranged = _ranged_targets()
+    dependent = [(T, c.name, c) for T, t in sorted(sp.items()) for c in t.controllers if c.kind == "dependent" and c.attached]
+    inputs = sorted(set(range(0, 32769, 257)) | {0, 1, 2, 32767, 32768})
+    for ti in range(n_tuples):
+        p = api.Project()
+        first = p.new_module(api.m.Filter)
+        n_targets = rng.randint(2, 7)
+        mods, chosen, mappings = [], [], []
+        for i in range(n_targets):
+            if dependent and rng.random() < 0.3:
+                T, cname, sc = rng.choice(dependent)
+                cls = MODULE_CLASSES[sp[T].mtype]
+                unit = rng.choice(list(sc.ranges))
+                m = p.new_module(cls, **{sc.depends_on: getattr(cls, sc.enum)[unit]})
+                lo, hi = sc.ranges[unit]
+                ckind = "dependent"
+            else:
+                T, cname, ckind, lo, hi = rng.choice(ranged)
+                cls = MODULE_CLASSES[sp[T].mtype]
+                m = p.new_module(cls)
+            top = (hi - lo) if ckind == "compact" else 32768     # as in part_drive: a compact target's window is in its own units
+            a, b = rng.choice([(0, top), (top, 0), (rng.randint(0, top), rng.randint(0, top))])
+            number = 0 if rng.random() < 0.2 else cls.controllers[cname].number
+            mappings.append((a, b, number, 0, 0, 0, 0, 0))
+            chosen.append([T, cname, ckind, lo, hi, a, b, number])
+            mods.append(m)
+        mc = p.new_module(MultiCtl, gain=rng.choice([256, 256, 1024, rng.randint(0, 1024)]), quantization=rng.choice([32768, 32768, 7, rng.randint(0, 32768)]),
+                          mappings=mappings)
+        mc >> mods
+        unplugged = sorted(rng.sample(range(n_targets), rng.randint(0, max(0, n_targets - 1)))) if rng.random() < 0.7 else []
+        for j in unplugged:
+            p.connect(mc, ~mods[j])
+        last = p.new_module(api.m.Amplifier)        # the project's last module is not a target either
+        if unplugged:
+            res.count("history_bundles_with_freed_slots")
+            if any(j < max(set(range(n_targets)) - set(unplugged)) for j in unplugged):
+                res.count("history_bundles_with_freed_slot_before_live_one")
+        case = {"part": "histories", "targets": chosen, "unplugged": unplugged, "gain": mc.gain, "quantization": mc.quantization}
+        res.case(("histories", tuple(map(tuple, chosen)), tuple(unplugged), mc.gain, mc.quantization))
+        everyone = [first] + mods + [mc, last]
+        snaps = [{n: _val(getattr(m, n)) for n in type(m).controllers} for m in everyone]
+        prev = [None] * n_targets
+        bad = False
+        for v in inputs:
+            try:
+                mc.value = v
+            except Exception as e:
+                res.violation(f"C20:delivery-raises:{type(e).__name__}", f"value={v}: delivery raised {e!r} for bundle {case}", dict(case, input=v))
+                bad = True
+                break
+            for i, (m, c) in enumerate(zip(mods, chosen)):
+                T, cname, ckind, lo, hi, a, b, number = c
+                got = _val(getattr(m, cname))
+                if got < lo or got > hi:
+                    res.violation(f"C20:out-of-range:{ckind}", f"value={v}: {T}.{cname} holds {got} outside [{lo},{hi}] (bundle {case})", dict(case, input=v, target=i))
+                    bad = True
+                    break
+                if number == 0 or i in unplugged or ckind == "dependent":
+                    continue
+                pv = prev[i]
+                if pv is not None and ((a <= b and got < pv) or (a > b and got > pv)):
+                    res.violation(f"C20:not-monotone:{ckind}:{'normal' if a <= b else 'reversed'}", f"value={v}: {T}.{cname} received {got} after {pv} (bundle {case})", dict(case, input=v, target=i))
+                    bad = True
+                    break
+                prev[i] = got
+            if bad:
+                break
+        res.evaluations += len(inputs)
+        res.distinct += len(inputs)
+        res.count("history_bundles")
+        if bad:
+            continue
+        res.count("bystander_checks")
+        for idx, (m, s) in enumerate(zip(everyone, snaps)):
+            now = {n: _val(getattr(m, n)) for n in type(m).controllers}
+            allowed = set()
+            role = "bystander"
+            if m is mc:
+                allowed, role = {"value"}, "the MultiCtl itself"
+            elif 1 <= idx <= n_targets:
+                i = idx - 1
+                if i in unplugged:
+                    role = "unplugged target"
+                elif chosen[i][7] == 0:
+                    role = "unmapped target"
+                else:
+                    allowed, role = {chosen[i][1]}, "mapped target"
+            changed = sorted(k for k in s if s[k] != now[k] and k not in allowed)
+            if changed:
+                res.violation(f"C20:writes-outside-mapping:{role.replace(' ', '-')}", f"driving the bundle changed {type(m).__name__}.{changed} of a {role} at position {m.index} "
+                                                                                     f"({[(k, s[k], now[k]) for k in changed[:3]]}; bundle {case})", case)
+                break
+        if ti == 0:
+            res.sample(dict(case, inputs=f"{len(inputs)} sampled inputs 0..32768"))
+
+
 # ------------------------------------------------------------------ (c) pure function
 def part_pure(res, rng, n_tuples):
     from rv.modules.multictl import convert_value
@@ -373,6 +481,7 @@ def run_shard(spec_, res):
         res.exhaustive = True
     elif spec_["part"] == "drive":
         part_drive(res, rng, spec_["tuples"])
+        part_histories(res, rng, spec_["tuples"] * 25)
     else:
         part_pure(res, rng, spec_["tuples"])
 
